@@ -213,6 +213,7 @@ pub fn run(tier: Tier, seed: u64) -> i32 {
     // ---------------- B. hostile descriptions ------------------------------
     hostile(&ev, tier, seed);
 
+    super::c18::sanitizer_summary(&ev, "C15");
     ev.floor("both routes Ok", ev.bucket_get("both_ok"), tier.pick(150, 2000));
     ev.floor("both routes Err", ev.bucket_get("both_err"), tier.pick(60, 800));
     ev.floor("capacities", ev.set_len("capacities") as u64, 6);
